@@ -569,7 +569,8 @@ def gen_history(rng, env, n_steps):
         if k < 0.55:  # a complete decorator expression
             for _ in range(rng.choice([0, 0, 1, 1, 2, 3])):
                 do(["filter", r, rng.random() < 0.6, gen_call(rng)])
-            f = rng.randrange(len(FN_SPECS))
+            # a quarter of the expressions register a function object of this history AGAIN (other closure / name / chain)
+            f = rng.choice(registered) if registered and rng.random() < 0.25 else rng.randrange(len(FN_SPECS))
             if rng.random() < 0.5:
                 do(["regfn", r, f])
             else:
@@ -1271,6 +1272,303 @@ def auth_oracle_check(regs):
 
 
 # ----------------------------------------------------------------------------------------
+# histories that RE-USE function objects: one function registered several times (other dispatcher, other hook name, other or no
+# filters, again after an unregistration).  The property is about registrations: each one applies where ITS OWN chain says.
+# ----------------------------------------------------------------------------------------
+DISP_NAMES = ["global", "schema", "test"]
+FAKE_KIND = {"call": "before_generate", "filter": "filter", "map": "map", "flatmap": "flatmap"}
+APPLY_ORDER = ["before_generate", "filter", "map", "flatmap"]  # order of HookDispatcher.apply_to_container
+
+
+def is_hook_name(name):
+    return any(name == f"{k}_{t}" for k in ORACLE_KINDS for t in ORACLE_TARGETS)
+
+
+def _rr(i, fn, scope, form, hook, filters):
+    return ["register", {"id": i, "fn": fn, "scope": scope, "form": form, "hook": hook, "filters": filters}]
+
+
+# always run first
+REUSE_FIXED = [
+    # global, function form: filtered -> unregistered -> the same function without filters
+    {"slots": [{"kind": "map", "name": "map_query"}],
+     "events": [_rr(0, 0, "global", "function", "map_query", [["apply_to", {"path": "/users"}]]), ["unregister", 0, 0],
+                _rr(1, 0, "global", "function", "map_query", [])]},
+    # schema.hook, named forms, a function whose name is no hook name: skip_for -> unregistered -> unfiltered, then a second name
+    {"slots": [{"kind": "filter", "name": "marker"}],
+     "events": [_rr(0, 0, "schema_hook", "named_inner", "filter_headers", [["skip_for", {"method": "GET"}]]), ["unregister", 1, 0],
+                _rr(1, 0, "schema_hook", "named", "filter_headers", []), _rr(2, 0, "schema", "named", "filter_cookies", [])]},
+    # filtered on one dispatcher, then (first registration still there) unfiltered on another one; a second function in between
+    {"slots": [{"kind": "flatmap", "name": "flatmap_headers"}, {"kind": "map", "name": "map_case"}],
+     "events": [_rr(0, 0, "global", "function", "flatmap_headers", [["apply_to", {"method": "GET"}]]),
+                _rr(1, 1, "schema", "function", "map_case", [["apply_to", {"tag": "admin"}]]),
+                _rr(2, 0, "schema", "function", "flatmap_headers", []), ["unregister", 0, 0],
+                _rr(3, 1, "test", "named", "map_case", [])]},
+    # a function with filters, unregistered, then attached to one test through hooks.apply (no filter expression at all)
+    {"slots": [{"kind": "before_generate", "name": "custom_hook_0"}],
+     "events": [_rr(0, 0, "schema", "named", "before_generate_query", [["apply_to", {"operation_id": "getUser"}]]), ["unregister", 1, 0],
+                _rr(1, 0, "test", "apply", "before_generate_query", [])]},
+    # three registrations of one function: filters A on global, filters B on test, nothing on schema under another name; unregister_all in between
+    {"slots": [{"kind": "map", "name": "map_headers"}],
+     "events": [_rr(0, 0, "global", "function", "map_headers", [["apply_to", {"tag": "users"}], ["skip_for", {"method": "post"}]]),
+                _rr(1, 0, "test", "named_split", "map_cookies", [["apply_to", {"path": "/users/{id}"}], ["skip_for", {"method": "put"}]]),
+                ["unregister_all", 0], ["unregister", 2, 0], _rr(2, 0, "schema_hook", "named", "map_body", [])]},
+]
+
+
+def gen_reuse(rng):
+    """1-3 function objects, 2-6 complete registration expressions that mostly re-use function object 0 (different / empty
+    chains, all scopes and forms, several hook names of the function's kind), unregistrations in between."""
+    n_slots = rng.choice([1, 1, 2, 2, 3])
+    slots = []
+    for k in range(n_slots):
+        kind = rng.choice(ORACLE_KINDS)
+        slots.append({"kind": kind, "name": f"{kind}_{rng.choice(ORACLE_TARGETS)}" if rng.random() < 0.6 else f"custom_hook_{k}"})
+    events, live, rid, n_regs = [], [], 0, rng.choice([2, 3, 3, 4, 5, 6])
+    while rid < n_regs:
+        if live and rng.random() < 0.3:
+            if rng.random() < 0.12:
+                di = rng.choice(live)[0]
+                events.append(["unregister_all", di])
+                live = [p for p in live if p[0] != di]
+            else:
+                di, slot = rng.choice(live)
+                events.append(["unregister", di, slot])
+                live = [p for p in live if p != (di, slot)]
+            continue
+        slot = 0 if rng.random() < 0.6 else rng.randrange(n_slots)
+        sl = slots[slot]
+        hooky = is_hook_name(sl["name"])
+        form = rng.choice(["named", "named", "named_inner", "named_split", "apply"] + (["function"] * 4 if hooky else []))
+        scope = "test" if form == "apply" else rng.choice(["global", "schema", "schema_hook", "test"])
+        if form == "function" or (hooky and rng.random() < 0.5):
+            hook = sl["name"]
+        else:
+            hook = f"{sl['kind']}_{rng.choice(ORACLE_TARGETS)}"
+        filters = []
+        if form != "apply" and rng.random() < 0.55:
+            for c in rng.sample(ORACLE_CRIT, rng.choice([1, 1, 2])):
+                filters.append([rng.choice(["apply_to", "apply_to", "skip_for"]), c])
+        events.append(_rr(rid, slot, scope, form, hook, filters))
+        live.append((SCOPE_DISP[scope], slot))
+        rid += 1
+    if live and rng.random() < 0.3:
+        di, slot = rng.choice(live)
+        events.append(["unregister", di, slot])
+    return {"slots": slots, "events": events}
+
+
+def make_reuse_fn(kind, slot, name, fired):
+    """One function object; works under a real Hypothesis strategy (records the operation it ran for) and under FakeStrategy."""
+    from hypothesis import strategies as st
+
+    def record(ctx):
+        fired.add(ctx.operation.label)
+
+    if kind == "map":
+        def fn(ctx, value):
+            record(ctx)
+            return value
+    elif kind == "filter":
+        def fn(ctx, value):
+            record(ctx)
+            return True
+    elif kind == "flatmap":
+        def fn(ctx, value):
+            record(ctx)
+            return st.just(value)
+    else:
+        def fn(ctx, strategy):
+            if isinstance(strategy, FakeStrategy):
+                strategy.log.append(("call", slot))
+                return strategy
+            return strategy.map(lambda v: (record(ctx), v)[1])
+    fn.__name__ = fn.__qualname__ = name
+    fn.fid = slot
+    return fn
+
+
+def reuse_chain(r):
+    """The chain written in the registration expression, as a value (order of the calls does not matter)."""
+    def norm(c):
+        return {a: ([x.upper() for x in v] if isinstance(v, list) else v.upper()) if a == "method" else v for a, v in c.items()}
+
+    return sorted(json.dumps([k, norm(c)], sort_keys=True) for k, c in (r["filters"] if r["form"] != "apply" else []))
+
+
+def reuse_states(events):
+    """The property text read directly, after every event: (live registrations in registration order, {slot: chain of the last
+    registration expression of that function object that carries a chain}).  unregister(f) on a dispatcher removes the
+    registrations of f there."""
+    live, last, out = [], {}, []
+    for ev in events:
+        if ev[0] == "register":
+            live = live + [ev[1]]
+            if ev[1]["form"] != "apply":
+                last = {**last, ev[1]["fn"]: reuse_chain(ev[1])}
+        elif ev[0] == "unregister":
+            live = [r for r in live if not (SCOPE_DISP[r["scope"]] == ev[1] and r["fn"] == ev[2])]
+        else:
+            live = [r for r in live if SCOPE_DISP[r["scope"]] != ev[1]]
+        out.append((live, last))
+    return out
+
+
+def reuse_is_current(r, last):
+    """Outside finding C19-F5: the function object was not given another chain by a later (or, for hooks.apply, any) expression."""
+    return reuse_chain(r) == last.get(r["fn"], [])
+
+
+def reuse_region(mine, last):
+    """The listed finding that explains a deviation of these registrations of one function object, None if there is none."""
+    stale = [r for r in mine if not reuse_is_current(r, last)]
+    if not stale:
+        return None
+    # C19-F6: hooks.apply (no filter expression at all) inherits what an earlier expression left on the function; C19-F5: a later expression replaced the chain
+    return "unfiltered_apply_inherits_filters" if all(r["form"] == "apply" for r in stale) else "function_registered_twice"
+
+
+def reuse_run(hist, seed=0, examples=2):
+    """Execute on real dispatchers -> (cells after every event, {slot: labels the function ran for in real generation at the end}).
+    cells[op][dispatcher][target] = [[kind, slot], ...] applied by HookDispatcher.apply_to_container, in order."""
+    env = Env()
+    fired = {k: set() for k in range(len(hist["slots"]))}
+    fns = [make_reuse_fn(sl["kind"], k, sl["name"], fired[k]) for k, sl in enumerate(hist["slots"])]
+    steps = []
+    try:
+        for ev in hist["events"]:
+            if ev[0] == "register":
+                oracle_register(env, ev[1], fns[ev[1]["fn"]])
+            elif ev[0] == "unregister":
+                env.disps[ev[1]].unregister(fns[ev[2]])
+            else:
+                env.disps[ev[1]].unregister_all()
+            cells = []
+            for o in env.operations:
+                ctx = env.H.HookContext(o)
+                row = []
+                for d in env.disps:
+                    per_target = []
+                    for tg in ORACLE_TARGETS_COQ:
+                        log = []
+                        d.apply_to_container(FakeStrategy(log), tg, ctx)
+                        per_target.append([[FAKE_KIND[k], fid] for k, fid in log])
+                    row.append(per_target)
+                cells.append(row)
+            steps.append(cells)
+        for st_ in fired.values():
+            st_.clear()
+        for o in env.operations:
+            draw_cases(o, env.disps[2], examples, seed)
+    finally:
+        env.H.GLOBAL_HOOK_DISPATCHER.unregister_all()
+        env.disps[1].unregister_all()
+        env.close()
+    return steps, {k: sorted(v) for k, v in fired.items()}
+
+
+ORACLE_TARGETS_COQ = ["path_parameters", "query", "headers", "cookies", "body", "case"]  # Model_C19.all_targets
+
+
+def reuse_oracle(hist, steps, fired):
+    """-> list of (message, region) : registrations that fire / do not fire contrary to their own chain."""
+    bad = []
+    states = reuse_states(hist["events"])
+    for j, ((live, last), cells) in enumerate(zip(states, steps)):
+        for oi, f in enumerate(FACTS):
+            for di in range(3):
+                for ti, tg in enumerate(ORACLE_TARGETS_COQ):
+                    real = cells[oi][di][ti]
+                    here = [r for r in live if SCOPE_DISP[r["scope"]] == di and hook_target(r["hook"]) == tg]
+                    if not real and not here:
+                        continue
+                    for kind in APPLY_ORDER:
+                        regs_k = [r for r in here if r["hook"] == f"{kind}_{tg}"]
+                        slots = {r["fn"] for r in regs_k} | {fid for k, fid in real if k == kind}
+                        for slot in sorted(slots):
+                            mine = [r for r in regs_k if r["fn"] == slot]
+                            want = sum(1 for r in mine if expected_selected(r, f))
+                            got = sum(1 for k, fid in real if k == kind and fid == slot)
+                            if want == got:
+                                continue
+                            region = reuse_region(mine, last)
+                            desc = "; ".join(
+                                f"registration {r['id']} ({r['form']} form on {r['scope']}, own filters {r['filters'] or 'none'})" for r in mine
+                            ) or "no registration"
+                            bad.append((
+                                f"after event {j} ({hist['events'][j][0]}): hook {kind}_{tg} of function object #{slot} ({hist['slots'][slot]['name']}) ran "
+                                f"{got} time(s) on the {DISP_NAMES[di]} dispatcher for {f['label']}, its own filters say {want}: {desc}",
+                                region,
+                            ))
+    # real data generation at the end: per function object, the union over its live registrations
+    live, last = states[-1] if states else ([], {})
+    for slot in range(len(hist["slots"])):
+        mine = [r for r in live if r["fn"] == slot]
+        expected = sorted({f["label"] for r in mine for f in FACTS if expected_selected(r, f) and (hook_target(r["hook"]) != "body" or has_body(f))})
+        if fired[slot] != expected:
+            region = reuse_region(mine, last)
+            bad.append((
+                f"real data generation after the whole history: function object #{slot} ({hist['slots'][slot]['name']}) ran for {fired[slot]}, "
+                f"the own filters of its registrations {[(r['id'], r['scope'], r['hook'], r['filters'] or 'none') for r in mine]} select {expected}",
+                region,
+            ))
+    return bad
+
+
+def reuse_ops(hist, upto):
+    """The first `upto` events as low-level operations of Model_C19 (h_id = function object number)."""
+    out, n_dec = [], 0
+    for ev in hist["events"][:upto]:
+        if ev[0] == "unregister":
+            out.append(f"(OUnregister {cnat(ev[1])} {cN(ev[2])})")
+        elif ev[0] == "unregister_all":
+            out.append(f"(OUnregisterAll {cnat(ev[1])})")
+        else:
+            r = ev[1]
+            c = cnat(SCOPE_CLOSURE[r["scope"]])
+            fn = "{| h_id := %s; h_name := %s; h_arity := 2%%nat |}" % (cN(r["fn"]), c_hname(hist["slots"][r["fn"]]["name"]))
+            fl = [(cbool(k == "apply_to"), c_call(crit_call(cr))) for k, cr in r["filters"]]
+            if r["form"] == "apply":
+                out.append(f"(ODirect 2%nat {fn} {c_hname(r['hook'])})")
+                continue
+            if r["form"] == "function":
+                outer, inner = fl, None
+            elif r["form"] == "named":
+                outer, inner = fl, []
+            elif r["form"] == "named_inner":
+                outer, inner = [], fl
+            else:
+                half = len(fl) // 2
+                outer, inner = fl[:half], fl[half:]
+            out += [f"(OFilter {c} {i} {call})" for i, call in outer]
+            if inner is None:
+                out.append(f"(ORegFn {c} {fn})")
+            else:
+                out.append(f"(ORegName {c} {c_hname(r['hook'])})")
+                out += [f"(ODecFilter {cnat(n_dec)} {i} {call})" for i, call in inner]
+                out.append(f"(ODecApply {cnat(n_dec)} {fn})")
+                n_dec += 1
+    return out
+
+
+def c_ledger_observe(hist, upto):
+    return "(ledger_observe [Global; Schema; Test] %s %s %s)" % (
+        clist([cnat(c) for c in CLOSURES], "nat"), clist(reuse_ops(hist, upto), "op"), c_universe())
+
+
+def ledger_key(ledger):
+    return [[d, name, slot] for d, name, slot, _ in ledger]
+
+
+def canon_ledger_observation(v):
+    """-> (cells of the model of the code, cells of the per-registration specification, ledger [(disp, hook, slot, current)])"""
+    cells, ledger = unsym(v)
+    code = [[[canon_model_applied(pair[0]) for pair in per_t] for per_t in row] for row in cells]
+    spec = [[[canon_model_applied(pair[1]) for pair in per_t] for per_t in row] for row in cells]
+    return code, spec, [[e[0], p_hname(e[1]), e[2], bool(e[3])] for e in ledger]
+
+
+# ----------------------------------------------------------------------------------------
 # listed findings: canonical witnesses replayed on the implementation
 # ----------------------------------------------------------------------------------------
 def witness_fails(w) -> bool:
@@ -1330,7 +1628,13 @@ def run(chk: core.Check):
         "mostly no hook name at all, sometimes another hook's name) on global, schema.hooks, schema.hook and test scope, about a third unregistered "
         "afterwards, then real data generation for all 6 operations.  Interleaved stage: 2 fixed + generated event lists "
         "generate(op) / register(complete expression) / unregister on ONE schema object and one test dispatcher, 1-3 operations generated repeatedly; "
-        "after each generate the set of registrations whose hook ran is compared with Model_C19.gen_trace and with the direct reading of the property"
+        "after each generate the set of registrations whose hook ran is compared with Model_C19.gen_trace and with the direct reading of the property.  "
+        "Re-use stage: 5 fixed + generated histories over 1-3 function OBJECTS, 2-6 complete registration expressions of which ~60% register function "
+        "object 0 again (function / named / named-inner / named-split / hooks.apply form, global / schema.hooks / schema.hook / test, the function's own "
+        "hook name or another name of its kind, 45% without filters), unregister / unregister_all in between; after EVERY event every dispatcher is "
+        "asked (apply_to_container with a recording strategy) for all 6 operations x 6 targets, real data generation at the end; expected = each "
+        "registration fires where the filters written in its own expression say (mismatches where the function object was given another chain by a "
+        "later expression = region function_registered_twice, finding C19-F5)"
     )
     chk.proofs(["Common", "C19"])
     rng = chk.rng
@@ -1415,6 +1719,90 @@ def run(chk: core.Check):
         if differs == 0:
             chk.fail("the code behaves like the pre-fix model register_prefix on every sampled history (shared filter set is back?)", sent[0][0], region=None)
 
+    # ---- histories that re-use function objects (a registration, not a function, is what the property speaks of): real dispatchers
+    #      after every event + real generation at the end vs (a) the property read directly (oracle: concrete failing inputs),
+    #      (b) Model_C19.apply_to_container (model of the code), (c) Model_C19.spec_apply_to_container on the ledger, in the region
+    #      of C19_each_registration_own_chain_container_partial
+    n_ru = 40 if quick else 400
+    ru_runs = []
+    for i in range(len(REUSE_FIXED) + n_ru):
+        hist = REUSE_FIXED[i] if i < len(REUSE_FIXED) else gen_reuse(rng)
+        try:
+            steps, fired = reuse_run(hist, seed=rng.randrange(1 << 30))
+        except Exception as exc:  # noqa: BLE001
+            chk.fail(f"registration history re-using a function object crashed: {type(exc).__name__}: {exc}"[:300], {"reuse_history": hist})
+            continue
+        ru_runs.append((hist, steps, fired))
+    ru_exprs = [(k, j) for k, (hist, steps, _) in enumerate(ru_runs) for j in range(1, len(steps) + 1)]
+    ru_model = core.coq_eval(IMPORTS, [c_ledger_observe(ru_runs[k][0], j) for k, j in ru_exprs], shard=40)
+    ru_by_hist = {}
+    for (k, j), mv in zip(ru_exprs, ru_model):
+        ru_by_hist.setdefault(k, []).append((j, canon_ledger_observation(mv)))
+    ru_wrong = ru_inside = ru_disagree = ru_steps = ru_spec_cells = 0
+    for k, (hist, steps, fired) in enumerate(ru_runs):
+        regs_ = [e[1] for e in hist["events"] if e[0] == "register"]
+        per_fn = {}
+        for r in regs_:
+            per_fn[r["fn"]] = per_fn.get(r["fn"], 0) + 1
+        reused = max(per_fn.values(), default=0)
+        chk.seen({"reuse_history": hist}, reused >= 2 and len({json.dumps(reuse_chain(r)) for r in regs_}) >= 2)
+        chk.count(f"reuse:registrations_of_one_function_object:{min(reused, 4)}{'+' if reused >= 4 else ''}")
+        chk.count("reuse:unregister_events", sum(1 for e in hist["events"] if e[0] != "register"))
+        chk.count("reuse:dispatchers_one_function_is_on:%d" % max((len({SCOPE_DISP[r["scope"]] for r in regs_ if r["fn"] == s}) for s in per_fn), default=0))
+        for r in regs_:
+            chk.count(f"reuse:form:{r['form']}:{'filtered' if r['filters'] else 'unfiltered'}")
+        ru_steps += len(steps)
+        bad = reuse_oracle(hist, steps, fired)
+        outside = [m for m, region in bad if region is None]
+        ru_inside += len(bad) - len(outside)
+        for m, region in bad:
+            if region is not None:
+                chk.fail(m, {"reuse_history": hist}, region=region)
+        if outside:
+            ru_wrong += 1
+            chk.fail(outside[0], {"reuse_history": hist}, detail={"further_mismatches_in_this_history": len(outside) - 1})
+        states = reuse_states(hist["events"])
+        for j, (code, spec, ledger) in ru_by_hist.get(k, []):
+            real = steps[j - 1]
+            live, last = states[j - 1]
+            if ledger_key(ledger) != [[SCOPE_DISP[r["scope"]], r["hook"], r["fn"]] for r in live]:
+                ru_disagree += 1
+                chk.disagree("re-use history: Model_C19.ledger vs the live registrations read from the events", {"reuse_history": hist, "events": j},
+                             [[SCOPE_DISP[r["scope"]], r["hook"], r["fn"]] for r in live], ledger)
+                break
+            if any(cur and not reuse_is_current(r, last) for (_, _, _, cur), r in zip(ledger, live)):
+                ru_disagree += 1
+                chk.disagree("re-use history: Model_C19.entry_current vs the region read from the events", {"reuse_history": hist, "events": j},
+                             [reuse_is_current(r, last) for r in live], ledger)
+                break
+            if code != real:
+                ru_disagree += 1
+                chk.disagree("re-use history: real dispatchers vs Model_C19.apply_to_container: " + (first_diff(real, code) or "")[:200],
+                             {"reuse_history": hist, "events": j}, "see difference", "see difference")
+                break
+            stop = False
+            for oi in range(len(FACTS)):
+                for di in range(3):
+                    for ti, tg in enumerate(ORACLE_TARGETS_COQ):
+                        if all(cur for d_, name, _, cur in ledger if d_ == di and hook_target(name) == tg):
+                            ru_spec_cells += 1
+                            if spec[oi][di][ti] != real[oi][di][ti] and not stop:
+                                stop = True
+                                ru_disagree += 1
+                                chk.disagree(
+                                    "re-use history: real dispatchers vs Model_C19.spec_apply_to_container in the region of "
+                                    "C19_each_registration_own_chain_container_partial",
+                                    {"reuse_history": hist, "events": j, "operation": FACTS[oi]["label"], "dispatcher": DISP_NAMES[di], "target": tg},
+                                    real[oi][di][ti], spec[oi][di][ti])
+            if stop:
+                break
+    chk.stages["reuse_histories"] = {
+        "histories": len(ru_runs), "fixed": len(REUSE_FIXED), "observed_states": ru_steps, "oracle_wrong_histories": ru_wrong,
+        "mismatches_inside_listed_regions": ru_inside, "cells_compared_with_per_registration_spec": ru_spec_cells, "model_disagrees": ru_disagree,
+    }
+    # a concrete failing input is what the tenfold search budget is for; once there is one, the normal budget will do
+    boost = 10 if chk.broken and not chk.failures else 1
+
     # ---- auth providers
     n_auth = 300 if quick else 3000
     acases = []
@@ -1449,7 +1837,7 @@ def run(chk: core.Check):
     chk.stages["correspondence_auth"] = {"histories": len(acases), "agree": a_agree}
 
     # ---- oracle: real data generation
-    n_or = (60 if quick else 600) * (10 if chk.broken else 1)
+    n_or = (60 if quick else 600) * boost
     wrong = inside = 0
     for i in range(n_or):
         if i < len(ORACLE_FIXED):
@@ -1486,7 +1874,7 @@ def run(chk: core.Check):
 
     # ---- generation INTERLEAVED with (un)registration on one schema object: real draws vs the model's gen_trace (correspondence of
     #      C19_generation_uses_current_registrations) vs the property text read directly (oracle)
-    n_il = (45 if quick else 450) * (10 if chk.broken else 1)
+    n_il = (45 if quick else 450) * boost
     il_runs = []
     for i in range(n_il):
         events = INTERLEAVED_FIXED[i] if i < len(INTERLEAVED_FIXED) else gen_events(rng, rng.choice([1, 2, 2, 3, 4]))
@@ -1521,7 +1909,7 @@ def run(chk: core.Check):
     chk.stages["interleaved_generation"] = {"histories": len(il_runs), "generate_events": n_gen, "oracle_wrong": il_wrong, "model_disagrees": il_disagree}
 
     # ---- oracle: auth providers through the public API
-    n_ao = (150 if quick else 2000) * (10 if chk.broken else 1)
+    n_ao = (150 if quick else 2000) * boost
     a_wrong = 0
     for _ in range(n_ao):
         aregs = gen_auth_registrations(rng, rng.choice([1, 2, 3, 4]))
@@ -1553,7 +1941,17 @@ def replay(payload) -> int:
             for r, exp, act, region in bad:
                 print(f"  registration {r['id']} {r['hook']}: fired for {act}, own filters select {exp} (region {region})")
             print("->", "FAILS" if bad else "passes")
-        if isinstance(inp, dict) and "events" in inp:
+        if isinstance(inp, dict) and "reuse_history" in inp:
+            hist = inp["reuse_history"]
+            steps, fired = reuse_run(hist)
+            bad = reuse_oracle(hist, steps, fired)
+            print("function objects", hist["slots"])
+            for j, ev in enumerate(hist["events"]):
+                print(f"  event {j}: {ev}")
+            for m, region in bad:
+                print(f"  [{region or 'VIOLATION'}] {m}")
+            print("->", "FAILS" if any(region is None for _, region in bad) else "passes (outside the listed regions)")
+        if isinstance(inp, dict) and "events" in inp and "reuse_history" not in inp:
             real = interleaved_run(inp["events"])
             expected = interleaved_expected(inp["events"])
             print("events", inp["events"])
